@@ -128,6 +128,7 @@ func initClosedRange() {
 	RegisterNativeClass("Std::ClosedRange", "value.ClosedRangeClass")
 
 	ClosedRangeIteratorClass = NewClass()
+	ClosedRangeIteratorClass.IncludeMixin(ResettableIteratorBaseMixin)
 	ClosedRangeClass.AddConstantString("Iterator", Ref(ClosedRangeIteratorClass))
 	RegisterNativeClass("Std::ClosedRange::Iterator", "value.ClosedRangeIteratorClass")
 }
